@@ -291,3 +291,40 @@ contract(F, "EquivalenceRule.constructor", props=["C09", "C01", "C07"], lenient=
          modifies=["self._constructor", "all:Obj('AbstractRule')", "all:Dict(Str, Str)", "all:Dict(Str, Int)", "all:Set(Str)",
                    "all:Obj('DisjointUnion')", "all:Obj('ConstructorAny')"],
          notes="union case proved; the Complement case (reverse of a union) is lenient: only its frame")
+
+# ------------------------------------------------------------------ verification rules in the forest database (C11/C03/C02)
+# A verification rule may have children (classes its expansion depends on).  Its forest key must give EVERY child a shift,
+# otherwise the table method (which pairs children with shifts) silently ignores the dependency.
+FSTR = "comb_spec_searcher/strategies/strategy.py"
+if "VerificationStrategy" not in REG.classes:
+    klass(FSTR, "VerificationStrategy", fields={})
+contract(FSTR, "VerificationStrategy.shifts", props=["C11", "C03", "C02"], lenient=True,
+         params={"self": Obj("VerificationStrategy"), "comb_class": CombClass, "children": Opt(Seq(CombClass))},
+         returns=Seq(Int), pure_calls=["decomposition_function"],
+         ensures=["implies(not is_none(children), len(result) == len(val(children)))",
+                  "forall(lambda i: implies(0 <= i and i < len(result), result[i] == 0))"],
+         modifies=[], self_invariant=False,
+         notes="default shifts of a verification rule: one per child (a dependency is needed at the same size)")
+klass(F, "VerificationRule", bases=["AbstractRule"], fields={}) if "VerificationRule" not in REG.classes else None
+contract(F, "VerificationRule.shifts", source="AbstractRule.shifts", props=["C11", "C03", "C02"], verify=False,
+         trusted_reason="memoised strategy.shifts(comb_class, children): the default (VerificationStrategy.shifts) is verified "
+                        "above; a user override must keep one shift per child (A2)",
+         params={"self": Obj("VerificationRule")}, returns=Seq(Int),
+         ensures=["result == rule_shifts(self)", "len(result) == len(children_of(self))"], modifies=["self._shifts"])
+contract(F, "VerificationRule.children", source="AbstractRule.children", props=["C11", "C03", "C02"], verify=False,
+         trusted_reason="memoised strategy.decomposition_function(comb_class): deterministic (A2)",
+         params={"self": Obj("VerificationRule")}, returns=Seq(CombClass), ensures=["result == children_of(self)"],
+         may_raise=["StrategyDoesNotApply"], modifies=["self._children"])
+REG.classes["VerificationRule"].properties.append("children")
+contract(F, "VerificationRule.forest_key", props=["C11", "C03", "C02"],
+         params={"self": Obj("VerificationRule"), "get_label": Fun("labeler"), "is_empty": Opt(Fun("emptiness"))},
+         returns=ForestRuleKey, may_raise=["StrategyDoesNotApply"],
+         ensures=["result.parent == label_of(get_label, old(self.comb_class))",
+                  "len(result.children) == len(children_of(self))",
+                  "forall(lambda i: implies(0 <= i and i < len(result.children), "
+                  "result.children[i] == label_of(get_label, children_of(self)[i])))",
+                  # every child is paired with a shift: nothing the rule depends on is dropped by the table method
+                  "len(result.shifts) == len(result.children)",
+                  "result.bucket == bucket('VERIFICATION')"],
+         modifies=["self._children", "self._shifts"],
+         notes="a verification rule with dependencies is a rule with children for the forest database")
